@@ -49,7 +49,10 @@ func verifHarness_C10_reader(keyed int, chunk int) {
 	verifAssume(junk != 0xFE && junk != 0xFD)
 	stream = append(stream, junk)                          // -> parse error
 	stream = append(stream, verifValidFrame(10, kb, ts)...)    // -> frame, seq 10
-	bad := verifValidFrame(11, kb, ts)                         // wrong checksum (unkeyed) / wrong signature (keyed)
+	// the rejected frame carries any timestamp at all: an unauthenticated frame must not influence what follows
+	badTs := verifNondetU64()
+	verifAssume(badTs < 1<<48)
+	bad := verifValidFrame(11, kb, badTs)                      // wrong checksum (unkeyed) / wrong signature (keyed)
 	flip := verifNondetU8()
 	verifAssume(flip != 0)
 	if keyed == 1 {
